@@ -64,6 +64,26 @@ def nontrivial(spec):
     return len(sizes) >= 2 and len(set(sizes)) >= 2
 
 
+def subresolution(rng, m):
+    """The continuous state w on a grid whose spacing is below the resolution of float32 at the grid's location: after rounding
+    neighbouring nodes coincide.  The value arrays must still have one entry per declared grid point (judged on the layout only:
+    the exact semantics says nothing about values computed from coinciding nodes)."""
+    from fractions import Fraction as F
+
+    from ..mdl import q
+
+    mm = copy.deepcopy(m)
+    w = next(v for v in mm["vars"] if v["name"] == "w")
+    n = rng.choice([5, 6, 9, 11])
+    kind = rng.choice(["high", "high", "fine"])
+    if kind == "high":       # float32 has a spacing of 2 at 2^24
+        w.update(n=n, start=q(1 << 24), stop=q((1 << 24) + n - 1))
+    else:                    # steps of 2^-26 next to 1 (float32: 2^-23)
+        w.update(n=n, start=q(1), stop=q(1 + F(n - 1, 1 << 26)))
+    mm["meta"]["feat"]["subresolution_grid"] = True
+    return mm
+
+
 def make_specs(ctx: Ctx, n_base, k):
     rng = ctx.rng("models")
     specs = []
@@ -74,6 +94,11 @@ def make_specs(ctx: Ctx, n_base, k):
         for mm, what in perms:
             specs.append(mk_spec(len(specs), mm, ["solve"], [{"op": "solve", "jit": True}],
                                  label=f"{label}; base {i}; {what} of {total} orders"))
+    # layout-only stratum: grids finer than the working precision
+    for j in range(max(3, n_base // 6)):
+        m = gen.rand_model(rng, {"p_w": 1.0, "p_log": 0.0, "p_h": 0.6, "p_r": 0.5, "p_z": 0.3, "T": [1, 2], "p_near_tie": 0.0})
+        specs.append(mk_spec(len(specs), subresolution(rng, m), ["shape"], [{"op": "solve", "jit": bool(j % 2)}],
+                             label="continuous grid finer than float32 resolution (layout only)"))
     return specs
 
 
